@@ -22,7 +22,12 @@ def addVoteChain (idxNeg addrEmpty stepBad valNone addrNe exSome sigEq sigBad : 
 /-- the code's if-tree IS that chain, for all values of its variables -/
 theorem addVote_tree_is_chain (addrEq : Bool) (lenAddr idx : Int) (sigok valSome sigEq exSome : Bool)
     (sh sr st vh vr vt : Int) :
-    Gen.t_voteSet_addVote addrEq lenAddr idx sigok valSome sigEq exSome sh sr st vh vr vt =
+    Gen.t_voteSet_addVote (bytes_Equal_valAddr_voteSet_valSet_GetByIndex_valIndex_lookupAddr := addrEq) (len_valAddr := lenAddr)
+      (valIndex := idx) (voteSet_valSet_GetByIndex_valIndex_val_PubKey_VerifyBytes_SignBytes_voteSet_chainID_vote_vote_Signature := sigok)
+      (voteSet_valSet_GetByIndex_valIndex_val_notNil := valSome)
+      (voteSet_getVote_valIndex_vote_BlockID_Key_blockKey_existing_Signature_Equals_vote_Signature := sigEq)
+      (voteSet_getVote_valIndex_vote_BlockID_Key_blockKey_ok := exSome) (voteSet_height := sh) (voteSet_round := sr)
+      (voteSet_type_ := st) (vote_Height := vh) (vote_Round := vr) (vote_Type := vt) =
       addVoteChain (decide (idx < 0)) (lenAddr == 0) ((vh != sh) || (vr != sr) || (vt != st)) (!valSome) (!addrEq)
         exSome sigEq (!sigok) := by
   unfold Gen.t_voteSet_addVote addVoteChain
